@@ -4,7 +4,8 @@
    executable invariant (equal column lengths; offsets start at 0, are monotone and end at
    the data length; everything inside its allocation) — both defined in C13/Model.v. *)
 From Coq Require Import List ZArith Bool.
-From TskVerif Require Import Base.Common C13.Model C13.Rep C13.RefineProofs.
+From TskVerif Require Import Base.Common C13.Model C13.Rep C13.ColsProofs C13.UpdateProofs
+  C13.KeepProofs C13.RefineProofs C13.PackProofs C13.Findings.
 Import ListNotations.
 Open Scope Z_scope.
 
@@ -49,3 +50,111 @@ Theorem c13_extend_bad_index : forall d t u idx t' st,
   WF d t -> WF d u -> extend d t u idx = (t', st) ->
   Exists (fun i => i < 0 \/ nrows u <= i) idx -> st <> Ok tt.
 Proof. exact extend_bad_index. Qed.
+
+(* every concrete table descriptor treats each of its ragged columns exactly once *)
+Theorem c13_orders_ok : order_ok d_individuals /\ order_ok d_nodes /\ order_ok d_edges /\
+  order_ok d_migrations /\ order_ok d_sites /\ order_ok d_mutations /\ order_ok d_populations /\
+  order_ok d_provenances.
+Proof. exact order_ok_all. Qed.
+
+(* (d) update_row, both code paths (in place / copy-truncate-add-extend) *)
+Theorem c13_update_row : forall d t i r t',
+  WF d t -> order_ok d -> row_ok d r = true -> update_row d t i r = (t', Ok tt) ->
+  0 <= i < nrows t /\ WF d t' /\ abs t' = replace_nth (Z.to_nat i) r (abs t).
+Proof. exact update_row_refines. Qed.
+
+Theorem c13_update_row_out_of_range : forall d t i r,
+  i < 0 \/ nrows t <= i -> update_row d t i r = (t, Err (td_oob d)).
+Proof. exact update_row_out_of_range. Qed.
+
+(* (g) a successful append_columns / set_columns passed the dimension checks and
+   check_offsets, and the table stands for old rows ++ rows_of columns / rows_of columns *)
+Theorem c13_append_columns : forall d t cs t',
+  WF d t -> order_ok d -> append_columns d t cs = (t', Ok tt) ->
+  exists m, parse_cols d cs = Ok m /\ WF d t' /\ abs t' = abs t ++ rows_of_cols (Z.to_nat m) cs.
+Proof. exact append_columns_refines. Qed.
+
+Theorem c13_set_columns : forall d t cs t',
+  WF d t -> order_ok d -> set_columns d t cs = (t', Ok tt) ->
+  exists m, parse_cols d cs = Ok m /\ WF d t' /\ abs t' = rows_of_cols (Z.to_nat m) cs.
+Proof. exact set_columns_refines. Qed.
+
+Theorem c13_table_copy : forall d t cp,
+  WF d t -> order_ok d -> table_copy d t = (cp, Ok tt) -> WF d cp /\ abs cp = abs t.
+Proof. exact table_copy_refines. Qed.
+
+(* (h) util.pack_* / unpack_* *)
+Theorem c13_pack_unpack : forall data, zlen (concat data) < U32_MOD ->
+  pack data = Ok (concat data, psums 0 data) /\ unpack (concat data) (psums 0 data) = data.
+Proof. exact pack_unpack. Qed.
+
+Theorem c13_unpack_pack : forall packed offs rest,
+  offs = 0 :: rest -> monotoneb offs = true -> last offs 0 = zlen packed -> zlen packed < U32_MOD ->
+  pack (unpack packed offs) = Ok (packed, offs).
+Proof. exact unpack_pack. Qed.
+
+(* (e) keep_rows: the rows whose mask bit is set, self-references renumbered by the
+   returned id map; it succeeds only if no kept row references a dropped / missing row,
+   and such a reference always makes it fail (with no change: the model has no new state) *)
+Theorem c13_keep_rows : forall d t keep t' idm,
+  WF d t -> zlen keep = nrows t -> keep_rows d t keep = Ok (t', idm) ->
+  idm = keep_mask_to_id_map keep /\ WF d t' /\
+  abs t' = map (remap_row d idm) (filter_mask keep (abs t)) /\
+  kept_refs_ok d (nrows t) idm keep (abs t).
+Proof. exact keep_rows_refines. Qed.
+
+Theorem c13_keep_rows_dangling_rejected : forall d t keep,
+  WF d t -> zlen keep = nrows t ->
+  ~ kept_refs_ok d (nrows t) (keep_mask_to_id_map keep) keep (abs t) ->
+  exists c, keep_rows d t keep = Err c.
+Proof. exact keep_rows_dangling. Qed.
+
+(* in-place compaction is correct although source and destination alias: the loops of
+   subset_*_column (fixed) and subset_ragged_*_column / subset_remap_ragged_id_column *)
+Theorem c13_subset_loop_in_place : forall (f : Z -> res Z) (g : Z -> Z) n maxr buf cells keep buf' k',
+  (forall v v', f v = Ok v' -> v' = g v) ->
+  FRep n maxr buf cells -> zlen keep = n ->
+  subset_loop f maxr keep 0 0 buf = Ok (buf', k') ->
+  FRep (count_true keep) maxr buf' (map g (filter_mask keep cells)).
+Proof. exact FRep_subset. Qed.
+
+Theorem c13_subset_ragged_loop_in_place : forall (f : Z -> res Z) (g : Z -> Z) n maxr c cells keep dt off k len,
+  (forall v v', f v = Ok v' -> v' = g v) ->
+  RRep n maxr c cells -> zlen keep = n ->
+  subset_rag_loop f (rmax c) (maxr + 1) keep 0 0 0 (rdata c) (roff c) = Ok (dt, off, k, len) ->
+  RRep (count_true keep) maxr (mkRag dt len (rmax c) (rincr c) off) (map (map g) (filter_mask keep cells)).
+Proof. exact RRep_subset. Qed.
+
+(* the corollary over histories: any sequence of successful operations *)
+Theorem c13_op_sequence : forall d, order_ok d -> forall ops t t',
+  WF d t -> crun d t ops = Some t' ->
+  WF d t' /\ abs t' = fold_left (lstep d) ops (abs t).
+Proof. exact op_sequence_refines. Qed.
+
+Theorem c13_op_sequence_from_empty : forall d incr ops t',
+  order_ok d -> 0 <= incr -> crun d (init d incr) ops = Some t' ->
+  WF d t' /\ abs t' = fold_left (lstep d) ops [].
+Proof. exact op_sequence_from_empty. Qed.
+
+(* ---- where the code does not satisfy the property (findings F8, F14, F15) ---- *)
+Theorem c13_provenance_getitem_slice_refuted :
+  exists t idx, WF d_provenances t /\ Forall (fun i => 0 <= i < nrows t) idx /\
+    py_getitem_idx d_provenances t idx = Err PY_ATTRIBUTE_ERROR.
+Proof. exact provenance_getitem_slice_refuted. Qed.
+
+Theorem c13_append_columns_not_atomic_refuted :
+  exists t cs t', WF d_individuals t /\
+    append_columns d_individuals t cs = (t', Err TSK_ERR_BAD_OFFSET) /\
+    WFb d_individuals t' = false.
+Proof. exact append_columns_not_atomic_refuted. Qed.
+
+Theorem c13_set_columns_failure_clears_refuted :
+  exists t cs t', WF d_nodes t /\ abs t <> [] /\
+    set_columns d_nodes t cs = (t', Err TSK_ERR_BAD_OFFSET) /\ abs t' = [].
+Proof. exact set_columns_failure_clears_refuted. Qed.
+
+Theorem c13_site_add_row_after_refused_append_aborts_refuted :
+  WF d_sites site_tbl /\
+  snd (append_columns d_sites site_tbl f14_site_cols) = Err TSK_ERR_BAD_OFFSET /\
+  add_row d_sites (fst (append_columns d_sites site_tbl f14_site_cols)) ([3], [[84]; []]) = Err BUG_ASSERT.
+Proof. exact site_add_row_after_refused_append_aborts. Qed.
